@@ -10,6 +10,44 @@ Definition contract_acct (x : addr) (b : Z) : start_acct :=
 Definition plain_acct (x : addr) (b : Z) : start_acct :=
   {| sa_addr := x; sa_bal := b; sa_nonce := 0; sa_code := 0%N; sa_stor := []; sa_native := true |}.
 
+(* (1) bisimulation.  [Inv a s] relates an adapter state (object slice + index map, per-object
+   dirty/origin storage slices + index maps, journal, validRevisions, persistent layer) to a
+   state of the reference semantics (account map, stack of copied states).  Every operation of
+   the proved core preserves it with EQUAL return values — outside the Coq-defined defect
+   regions ([pstep_ok] = no trigger fires, the client respects the interface contract, a revert
+   leaves the dirties index intact) — hence for every operation sequence, with arbitrary
+   Snapshot/RevertToSnapshot nesting, the outputs coincide. *)
+Theorem C16_bisim_step : forall a s o, Inv a s -> pstep_ok a o = true ->
+  exists r a' s', astep a o = (r, a') /\ spec_step s o = (r, s') /\ Inv a' s'.
+Proof. exact step_sim. Qed.
+Print Assumptions C16_bisim_step.
+
+Theorem C16_bisim : forall ops a s, Inv a s -> pguardedb a ops = true ->
+  aoutputs a ops = spec_outputs s ops /\ Inv (arun a ops).2 (spec_run s ops).2.
+Proof. exact bisim. Qed.
+Print Assumptions C16_bisim.
+
+(* (2) every deterministic client: the interpreter is the same go-ethereum code on both sides
+   and reaches the state only through this interface, so it is a function from the answers seen
+   so far to the next call; for every such function the two call/answer traces coincide. *)
+Theorem C16_any_client : forall (strat : list out -> option op) n a s h, Inv a s ->
+  client_guard n strat a h = true -> client_run_a n strat a h = client_run_s n strat s h.
+Proof. exact any_client. Qed.
+Print Assumptions C16_any_client.
+
+Theorem C16_init_empty : Inv (a_init []) (spec_init []).
+Proof. exact Inv_empty. Qed.
+
+(* non-vacuity: a concrete sequence with nested snapshots, reverts across account creation,
+   storage, nonce, balance, refund and self-destruct satisfies the guard *)
+Example C16_guard_nonvacuous :
+  pguardedb (a_init [])
+    [AddBalance 11%N 100; SetState 11%N 1%N 7; Snapshot; SubBalance 11%N 40; AddBalance 12%N 40;
+     SetNonce 12%N 1; Snapshot; SetState 11%N 1%N 0; SetState 12%N 2%N 5; AddRefund 3; Suicide 12%N;
+     GetBalance 12%N; RevertToSnapshot 1; GetState 11%N 1%N; HasSuicided 12%N; GetRefund;
+     RevertToSnapshot 0; Exist 12%N; GetBalance 11%N; GetCommittedState 11%N 1%N; Empty 12%N] = true.
+Proof. vm_compute. reflexivity. Qed.
+
 (* the full statement (no guard) is false of the faithful adapter model; each witness is replayed
    on the real code by the check (findings/C16_*.json) *)
 Theorem C16_refuted_selfdestruct_residue : exists st ops,
